@@ -954,6 +954,11 @@ func isSafeForMultilineReverseSuffix(re *syntax.Regexp) bool {
 	if !isMultilineLineAnchored(re) {
 		return false
 	}
+	// The searcher looks for the match on the line of the suffix literal: that is
+	// only where it is if nothing in the pattern can consume a newline.
+	if canMatchNewline(re) {
+		return false
+	}
 
 	switch re.Op {
 	case syntax.OpConcat:
@@ -988,6 +993,57 @@ func isSafeForMultilineReverseSuffix(re *syntax.Regexp) bool {
 	default:
 		return false
 	}
+}
+
+// multilineLiteralDotStarLiteral recognises (?m)^literal.*literal: a line anchor, one literal
+// without case folding, a greedy star of the default dot, and one literal without case folding and
+// without a newline. It returns the prefix literal's bytes.
+func multilineLiteralDotStarLiteral(re *syntax.Regexp) ([]byte, bool) {
+	for re.Op == syntax.OpCapture && len(re.Sub) == 1 {
+		re = re.Sub[0]
+	}
+	if re.Op != syntax.OpConcat || len(re.Sub) != 4 {
+		return nil, false
+	}
+	anchor, pre, star, suf := re.Sub[0], re.Sub[1], re.Sub[2], re.Sub[3]
+	if anchor.Op != syntax.OpBeginLine ||
+		pre.Op != syntax.OpLiteral || pre.Flags&syntax.FoldCase != 0 ||
+		star.Op != syntax.OpStar || star.Flags&syntax.NonGreedy != 0 || len(star.Sub) != 1 || star.Sub[0].Op != syntax.OpAnyCharNotNL ||
+		suf.Op != syntax.OpLiteral || suf.Flags&syntax.FoldCase != 0 {
+		return nil, false
+	}
+	for _, r := range suf.Rune {
+		if r == '\n' {
+			return nil, false
+		}
+	}
+	return []byte(string(pre.Rune)), true
+}
+
+// canMatchNewline reports whether some element of the pattern can consume a '\n'.
+func canMatchNewline(re *syntax.Regexp) bool {
+	switch re.Op {
+	case syntax.OpAnyChar:
+		return true
+	case syntax.OpLiteral:
+		for _, r := range re.Rune {
+			if r == '\n' {
+				return true
+			}
+		}
+	case syntax.OpCharClass:
+		for i := 0; i+1 < len(re.Rune); i += 2 {
+			if re.Rune[i] <= '\n' && '\n' <= re.Rune[i+1] {
+				return true
+			}
+		}
+	}
+	for _, sub := range re.Sub {
+		if canMatchNewline(sub) {
+			return true
+		}
+	}
+	return false
 }
 
 // isWildcardOp checks if the op is a wildcard pattern (.*, .+, or [charclass]+)
